@@ -17,6 +17,9 @@ ASSUMPTIONS = ['explored schedules are the PCT/random-walk family of DESIGN.md 2
 FIXED = [{'mode': 'rr'}, {'mode': 'serial'}, {'mode': 'fast'}]
 
 
+TIMEOUT_INCONCLUSIVE = True  # hangs are decided by quiescence in the simulator, not by the wall clock
+
+
 def budget(tier):
     return dict(shards=16, examples=24 if tier == 'quick' else 250)
 
